@@ -19,7 +19,7 @@ META = {
                    "sequence is covered. Obligations P1-P4, P7 and M together imply that parse_module returns "
                    "for every input whose nesting depth is bounded; P5 (no depth bound, look-ahead accumulating "
                    "along return paths) is open on this tree and recorded as known findings.",
-    "not_decided": "panics inside logos/rowan; P6 (indexing/unwrap in build_tree) is argued in C01's counting proof.",
+    "not_decided": "panics inside logos/rowan.",
     "trusted_base": ["rustc MIR construction, callee resolution, const evaluation",
                      "logos emits only kinds that carry #[token]/#[regex]/#[error]",
                      "look-ahead beyond the current token is treated as arbitrary (over-approximation)"],
@@ -139,6 +139,7 @@ def run(F, res, tier):
            "fuel (%s) runs out at a nesting depth of a few hundred" % (
                {f.rsplit("::", 1)[-1]: v["la"] for f, v in sorted(tails.items())}, refill))
 
+    p6_inventory(F, res, R)
     # ---- P7
     leaks = R["leak_sites"]
     for m in R["marks"]:
@@ -153,6 +154,44 @@ def run(F, res, tier):
             res.ob("P7", "mark/" + key, "marks are used linearly", False, where="crates/syntax/src/parser.rs:%s" % bad.get("line"),
                    how="%s; chain %s" % (bad["why"], bad["ctx"]))
     res.floor("start_node / start_node_before sites", len(R["marks"]), 88)
+
+
+def p6_inventory(F, res, R):
+    """P6: every other panic-capable construct reachable from parse_module inside crate syntax is justified"""
+    from lib import panics as PN
+    from lib import report as RP
+    from rules import c15
+    reviewed = RP.load_reviewed().get("C10", {})
+    seen = F.reachable_from([ROOT])
+    n = 0
+    for p_ in sorted(seen):
+        if not p_.startswith(("syntax::", "<syntax::")):
+            continue
+        f = F.fns[p_]
+        if not f.blocks:
+            continue
+        defs = None
+        for b, kind, detail, ln, key, exp in PN.sites_in(f):
+            full = "%s/%s" % (p_, key)
+            if kind == "explicit" and detail == "assert!" and p_ in R["functions"] + [PM.P + "bump"]:
+                continue        # P1 obligations above
+            if p_ == PM.P + "nth" and kind == "explicit":
+                continue        # the fuel guard: P4 / P5b
+            if defs is None:
+                defs = FL.Defs(f)
+            n += 1
+            desc = "the %s (%s) at this site cannot fire while parsing any input" % (kind, detail)
+            why = c15.discharge(F, f, b, kind, detail, defs)
+            if why:
+                res.ob("P6", full, desc, True, where=f.loc(ln), how="discharged: " + why)
+                continue
+            rv = reviewed.get("Q1/" + full)
+            if rv and rv.get("guards", []) == FL.guard_signature(F, f, b, defs):
+                res.ob("P6", full, desc, True, where=f.loc(ln), how="reviewed: " + rv["reason"], reviewed=True)
+            else:
+                res.ob("P6", full, desc, False, where=f.loc(ln), how="panic-capable construct reachable from parse_module, neither discharged nor reviewed"
+                       if not rv else "the conditions guarding this reviewed site changed since review")
+    res.floor("other panic-capable sites reachable from parse_module in crate syntax", n, 20)
 
 
 def depth_guard(F):
